@@ -16,8 +16,8 @@ Proof. exact schedule_independence. Qed.
 
 Example C15_ex :
   let D := LDef [(1, None)]%Z in
-  let sch := [(0, PDecode 0 [8; 1] 0); (1, PDecode 1 [8; 2] 0); (0, PField 0 [1]%Z AInt32 false []);
-              (0, PClose 0); (1, PField 1 [1]%Z AInt32 false []); (1, PClose 1); (0, PDecode 2 [8; 3] 0);
+  let sch := [(0, PDecode 0 [8; 1]%N 0); (1, PDecode 1 [8; 2]%N 0); (0, PField 0 [1]%Z AInt32 false []);
+              (0, PClose 0); (1, PField 1 [1]%Z AInt32 false []); (1, PClose 1); (0, PDecode 2 [8; 3]%N 0);
               (0, PField 2 [1]%Z AInt32 false [])]%nat in
   handles_private (fun h => match h with 1 => 1 | _ => 0 end)%nat sch /\
   spec_run D [] (proj_ops 0 sch) = [QOk; QOut (AOk (AvNum 1)); QOk; QOk; QOut (AOk (AvNum 3))].
